@@ -217,6 +217,9 @@ package goja
 //@ func (*Runtime).leave
 //@   props C03 C10 C01
 //@   maypanic
+// The jobs run inside an outermost activation: code run by a job (a Go callback calling RunString) must
+// find the call stack non-empty, or it takes itself for the outermost call and drains the queue early.
+//@   requires len(r.vm.callStack) > 0 [jobs-run-inside-an-outermost-activation]
 //@   ensures_abrupt !specIsScriptError(panicValue) [only-uncatchable-errors-escape]
 //@   assigns script, r.jobQueue, r.vm.stack
 //@   requires r != nil && r.vm != nil
